@@ -179,7 +179,12 @@ def seq_stage(ctx, impl, n, prefix="seq"):
         c = per[f][i]
         rd = dict(flavour=f, sequence=[st["prog"] for st in c["steps"]], reserved=[st.get("rsv") or [] for st in c["steps"]],
                   implementation_results=[st["out"] for st in c["steps"]], executor=[st["obs"] for st in c["steps"]])
-        if code & 2:
+        if code & 8 and not code & 2:
+            n_v += 1
+            ctx.violation("the real assembler REFUSES a subroutine of a sequence that has an assembled form (the model "
+                          "assembles it: unnamed, unreserved R registers are available)", dict(rd, refused_by_implementation=True),
+                          key=None)
+        elif code & 2:
             n_v += 1
             ctx.violation("a subroutine of a sequence run on one application of the real Executor does not behave like its "
                           "source program started from the state the previous subroutines left (registers the program "
@@ -276,7 +281,15 @@ def report(ctx, differing):
             ctx.violation("the assembled program on the real Executor does not behave like the source program "
                           "(direct interpretation of the source: registers named by the program, arrays, shared "
                           "memory, fault line)", replay_dict(c), key=None)
-    rest = [(c, code) for c, code in differing if not code & 2]
+    for c, code in differing:
+        if code & 8 and not code & 2:
+            n_oracle += 1
+            ctx.violation("the real assembler REFUSES a program that has an assembled form: unnamed R registers are available "
+                          "for its literals, labels are distinct and every instruction is one of the flavour with operands of the "
+                          "right kinds (the model assembles it; Asm theorems assemble_ir_accepts / assemble_total) -- there is no "
+                          "assembled subroutine that could behave like the source",
+                          dict(replay_dict(c), refused_by_implementation=True), key=None)
+    rest = [(c, code) for c, code in differing if not code & 2 and not code & 8]
     if rest:
         a = [c for c, code in rest if code & 1]
         d = [c for c, code in rest if code & 4 and not code & 1]
